@@ -116,6 +116,10 @@ fn check_depth(acc: &mut Acc, rank: u64, pattern: &[usize], d: usize, brackets: 
                 }
             }
             Ok(Ok(v)) => {
+                // the error documentation gives the limit: "more than 128 layers deep"
+                if d > 128 {
+                    acc.violation("depth-acceptance", "overdeep-accepted", &format!("overdeep-accepted:{}", pat_s.join("")), rank, format!("api={} {}", api, w), format!("nesting of {} levels (more than the documented 128) was accepted", d), case);
+                }
                 if d <= 100 {
                     acc.nontrivial += 1;
                     // right shape: the reference reader's value
@@ -441,7 +445,7 @@ pub fn replay(sub: &str, case: &J, acc: &mut Acc) {
 pub fn run(ctx: &Ctx) -> Report {
     let mut rep = Report::new(ctx, "model_checking");
     rep.assume("built with overflow checks and debug assertions on: 'never panics' has to hold for users who build in debug mode");
-    rep.assume("nesting levels 101..=999 are unspecified (only >= 100 accepted and 'more than the documented limit' rejected are stated); 'fails to return' is observed with a 20 s watchdog on inputs that take milliseconds");
+    rep.assume("nesting levels 101..=128 are unspecified (>= 100 accepted is stated; the documented limit is the 128 of ErrorCode::RecursionLimitExceeded); 'fails to return' is observed with a 20 s watchdog on inputs that take milliseconds");
     let thorough = ctx.tier.thorough();
     let sfx = |s: &str| if NOFAST { format!("{}-nofast", s) } else { s.to_string() };
 
@@ -578,7 +582,7 @@ pub fn run(ctx: &Ctx) -> Report {
         }
         let depths: Vec<usize> = (1..=130).collect();
         let total = (patterns.len() * depths.len() * 2) as u64;
-        let sub = Sub::new("depth-acceptance", "every pattern of length <= 3 over the eight nesting openers ( [ #( ' ` , ,@ '(a . ', nested d = 1..=130 levels around an atom and closed properly, under both bracket options, value and datum entry points, slice and reader: d <= 100 must parse and have the reference reader's shape; deeper levels must not panic; non-trivial = accepted with d <= 100", &format!("{} patterns x 130 depths x 2 bracket options", patterns.len()));
+        let sub = Sub::new("depth-acceptance", "every pattern of length <= 3 over the eight nesting openers ( [ #( ' ` , ,@ '(a . ', nested d = 1..=130 levels around an atom and closed properly, under both bracket options, value and datum entry points, slice and reader: d <= 100 must parse and have the reference reader's shape; d > 128 (the documented limit) must be rejected; levels in between must not panic; non-trivial = accepted with d <= 100", &format!("{} patterns x 130 depths x 2 bracket options", patterns.len()));
         let np = patterns.len() as u64;
         let accs = par_ranks(total, |rank, acc| {
             let pat = &patterns[(rank % np) as usize];
